@@ -318,7 +318,8 @@ pub fn drive_range_steered(w: u32, s: u32, prec: usize, seed: u64, long: bool, o
         let mut enc = renc_new(w, s);
         let mut o = encj(&enc); o["ev"] = json!("new"); writeln!(f, "{}", o).unwrap();
         let mut msg: Vec<(Vec<u64>, usize)> = vec![];
-        macro_rules! push { ($cdf:expr, $sym:expr) => {{ let cdf: Vec<u64> = $cdf; let sym: usize = $sym; enc.enc(prec, &cdf, sym).unwrap();
+        let mut snaps: Vec<(usize, u128, u128, usize)> = vec![{ let p = enc.pos(); (p.0, p.1, p.2, 0) }];
+        macro_rules! push { ($cdf:expr, $sym:expr) => {{ let cdf: Vec<u64> = $cdf; let sym: usize = $sym; enc.enc(prec, &cdf, sym).unwrap(); { let p = enc.pos(); snaps.push((p.0, p.1, p.2, enc.raw().sit_n)); }
             let mut o = encj(&enc); o["ev"] = json!("enc"); o["P"] = json!(prec); o["c"] = json!(cdf[sym]); o["p"] = json!(cdf[sym + 1] - cdf[sym]); writeln!(f, "{}", o).unwrap(); msg.push((cdf, sym)); }} }
         macro_rules! peek { () => {{ let view = enc.get_compressed(); let nwords = enc.num_words(); if nwords != view.len() { rep.mismatch(&ctxv, format!("num_words() = {} but the view has {} words (run {}, {} held back)", nwords, view.len(), run, enc.raw().sit_n)); }
             let mut o = encj(&enc); o["ev"] = json!("inspect"); o["num_words"] = json!(nwords); o["is_empty"] = json!(enc.is_empty()); o["pos"] = json!(enc.pos().0); o["view_len"] = json!(view.len()); o["view_tail"] = tail3(&view); writeln!(f, "{}", o).unwrap(); }} }
@@ -363,6 +364,17 @@ pub fn drive_range_steered(w: u32, s: u32, prec: usize, seed: u64, long: bool, o
         let dj = |d: &Box<dyn RDecDyn>| { let r = d.raw(); json!({"lower": to_val(r.lower), "range": to_val(r.range), "point": to_val(r.point), "pos": r.pos}) };
         let mut o = dj(&dec); o["ev"] = json!("seal"); o["words_len"] = json!(words.len()); o["words_tail"] = tail3(&words); writeln!(f, "{}", o).unwrap();
         rep.checks += msg.len() as u64;
+        // random access: seek to snapshots taken while many words were held back (and to a few others), decode from there
+        { let mut picks: Vec<usize> = vec![0, snaps.len() - 1, snaps.len() / 2];
+          if let Some(i) = (0..snaps.len()).max_by_key(|i| snaps[*i].3) { picks.push(i); if i > 0 { picks.push(i - 1); } }
+          for k in picks { let (pos, lo, ra, held) = snaps[k];
+              if dec.seek(pos, lo, ra).is_err() { rep.mismatch(&ctxv, format!("seek to snapshot {} (position {}, {} words held back) refused", k, pos, held)); break; }
+              let mut o = dj(&dec); o["ev"] = json!("seek"); o["target"] = json!(pos); writeln!(f, "{}", o).unwrap(); if held >= 256 { rep.class("seek_to_snapshot_with_256_held_back"); }
+              let mut ok = true;
+              for i in k..msg.len().min(k + 40) { let (cdf, sym) = &msg[i]; let r = dec.dec(prec, cdf); if r != Ok(*sym) { rep.mismatch(&ctxv, format!("after seeking to snapshot {} ({} words held back): symbol {} decoded as {:?}, expected {}", k, held, i, r, sym)); ok = false; break; }
+                  let mut o = dj(&dec); o["ev"] = json!("dec"); o["P"] = json!(prec); o["c"] = json!(cdf[*sym]); o["p"] = json!(cdf[sym + 1] - cdf[*sym]); o["maybe_exhausted"] = json!(dec.maybe_exhausted()); writeln!(f, "{}", o).unwrap(); }
+              if !ok { break; } }
+          if dec.seek(0, snaps[0].1, snaps[0].2).is_ok() { let mut o = dj(&dec); o["ev"] = json!("seek"); o["target"] = json!(0); writeln!(f, "{}", o).unwrap(); } }
         for (i, (cdf, sym)) in msg.iter().enumerate() {
             let r = dec.dec(prec, cdf);
             if r != Ok(*sym) { rep.mismatch(&ctxv, format!("scenario (run {}, ending {}, peek {}): symbol {} of {} decoded as {:?}, expected {} ({} words)", run, ending, peek, i, msg.len(), r, sym, words.len())); break; }
